@@ -23,3 +23,4 @@ def check(ctx):
     wal.check_emit(ctx)
     wal.check_torn_tail(ctx)
     wal.check_reassembly(ctx)
+    wal.check_silent_skip(ctx)
